@@ -116,8 +116,9 @@ type Interp struct {
 	unwind     int
 	files      map[*Value]*[]Value // pty stubs etc.
 	timers     []*timerRec
-	vnow       int64    // virtual clock (ns), advanced when timers fire
-	sigRegs    []sigReg // os/signal.Notify registrations (channel, signal numbers; none = all)
+	vnow       int64                  // virtual clock (ns), advanced when timers fire
+	mutexes    map[*Value]*mutexState // lock state of sync.Mutex / RWMutex values
+	sigRegs    []sigReg               // os/signal.Notify registrations (channel, signal numbers; none = all)
 	env        map[string]string
 	depth      int
 	curFrame   *frame
